@@ -78,6 +78,10 @@ def check(run, prog, tier):
     memorule.check(run, prog, "C12-N", ["quantarhei.spectroscopy.mocktwodcalculator.MockTwoDResponseCalculator",
                                          "quantarhei.spectroscopy.labsetup.LabSetup"],
                    "pathways kept from an earlier call carry the orientational prefactors of the earlier polarisations")
+    run.rule("C12-O", "the averaging vector F4e.M4 that the pathways read belongs to the polarisations the set-up holds now: it is "
+                      "derived from them on every read, or every method of the set-up and of its field objects that writes a "
+                      "polarisation derives it again", minimum=2)
+    rule_O(run, prog)
     run.rule("C12-M", "the pathway generators diagonalize an aggregate that is not diagonalized yet: no call placed under the very "
                       "condition under which the callee returns at once", minimum=2)
     rule_M(run, prog)
@@ -130,6 +134,52 @@ def rule_I(run, prog, rid, what):
                                sample={"statement": norm(st)[:80]})
     if n_st < 2:
         raise AnalysisError("diagonalize: only %d width accumulations over sites recognised (2 confirmed)" % n_st)
+
+
+def rule_O(run, prog):
+    """'The orientational prefactor of every pathway equals the exact average of the product of the four field-dipole
+    projections': pathways compute sign * (lab.F4eM4 . F4n).  LabSetup.e holds the four polarisations; LabField objects
+    write single rows of it (set_polarization, the `pol` attribute).  Either F4eM4 is a property whose getter computes
+    from self.e, or every function of the module that stores into `.e` of a set-up assigns F4eM4 afterwards."""
+    rid = "C12-O"
+    lab = prog.cls("quantarhei.spectroscopy.labsetup.LabSetup")
+    mod = lab.module
+    prog.consulted.add(mod.relpath)
+    getter = lab.methods.get("F4eM4")
+    derived_on_read = False
+    if getter is not None and isinstance(getter.node, ast.FunctionDef):
+        derived_on_read = any(isinstance(x, ast.Attribute) and norm(x) == "self.e" for x in ast.walk(getter.node))
+    # the property may also be defined by name in the class body (getter + setter share the name: the loader keeps one)
+    for st in lab.node.body:
+        if isinstance(st, ast.FunctionDef) and st.name == "F4eM4" and any(norm(d) == "property" for d in st.decorator_list):
+            derived_on_read = any(isinstance(x, ast.Attribute) and norm(x) == "self.e" for x in ast.walk(st))
+    n = 0
+    for cls in mod.classes.values():
+        for nme, f in cls.methods.items():
+            if not isinstance(f.node, ast.FunctionDef):
+                continue
+            stores = []
+            for st in walk_no_nested(f.node):
+                if isinstance(st, (ast.Assign, ast.AugAssign)):
+                    for t_ in (st.targets if isinstance(st, ast.Assign) else [st.target]):
+                        b_ = t_
+                        while isinstance(b_, ast.Subscript):
+                            b_ = b_.value
+                        if isinstance(b_, ast.Attribute) and b_.attr == "e" and norm(b_.value) in ("self", "self.labsetup", "lab") \
+                                and not (isinstance(st, ast.Assign) and isinstance(st.value, ast.Constant) and st.value.value is None):
+                            stores.append(st)
+            if not stores or nme == "__init__":
+                continue
+            n += 1
+            rederives = any(isinstance(st, ast.Assign) and any(isinstance(t_, ast.Attribute) and t_.attr == "F4eM4" for t_ in st.targets)
+                            and st.lineno > stores[-1].lineno for st in walk_no_nested(f.node))
+            run.obligation(rid, f.short, derived_on_read or rederives, key="polarisation-writer",
+                           message="%s writes a polarisation (`%s`) and the averaging vector F4eM4, which is stored when "
+                                   "set_pulse_polarizations runs, is not derived again: the pathways generated afterwards carry the "
+                                   "orientational prefactor of the old polarisations" % (f.short, norm(stores[0])[:50]),
+                           loc=f.loc(stores[0]))
+    if n < 2:
+        raise AnalysisError("C12-O: only %d methods writing polarisations found (set_pulse_polarizations, LabField.set_polarization)" % n)
 
 
 def rule_M(run, prog):
@@ -649,7 +699,14 @@ def rule_B(run, prog):
                    message="the isotropic averaging matrix must be [[4,-1,-1],[-1,4,-1],[-1,-1,4]]/30; found %s" % val,
                    loc=ini.loc(), sample={"M4": val})
     sp = lab.methods["set_pulse_polarizations"]
-    Fe, se = _factor_array(prog, sp, "F4e", "v")
+    # the field factor is computed where the polarisations are set, or on every read by a property F4eM4
+    from ..loader import FuncInfo
+    fe = sp
+    for st_ in lab.node.body:
+        if isinstance(st_, ast.FunctionDef) and any(isinstance(n_, ast.Assign) and isinstance(n_.targets[0], ast.Subscript)
+                                                    and norm(n_.targets[0].value) == "F4e" for n_ in walk_no_nested(st_)):
+            fe = FuncInfo(st_.name, lab.module, lab, st_)
+    Fe, se = _factor_array(prog, fe, "F4e", "v")
     bl = prog.cls(LP).methods["build"]
     Fd, sd = _factor_array(prog, bl, "self.F4n", "v")
     matchings = []
@@ -672,8 +729,10 @@ def rule_B(run, prog):
                    loc=bl.loc(), sample={"matchings": [sorted(sorted(p) for p in m_) if m_ else None for m_ in matchings]})
     # F4eM4 = F4e . M4 ; prefactor = sign * (F4eM4 . F4n) * rho0 * evolfac
     st = [norm(s) for s in ast.walk(sp.node) if isinstance(s, ast.stmt)]
-    run.obligation(rid, "LabSetup.set_pulse_polarizations", "self.F4eM4 = numpy.dot(F4e, self.M4)" in st, key="F4eM4",
-                   message="the field factor must be contracted with M4", loc=sp.loc())
+    stf = [norm(s) for s in ast.walk(fe.node) if isinstance(s, ast.stmt)]
+    contracted = "self.F4eM4 = numpy.dot(F4e, self.M4)" in stf or ("return numpy.dot(F4e, self.M4)" in stf)
+    run.obligation(rid, "LabSetup." + fe.name, contracted, key="F4eM4",
+                   message="the field factor must be contracted with M4", loc=fe.loc())
     oa = prog.cls(LP).methods["orientational_averaging"]
     asg = [n for n in ast.walk(oa.node) if isinstance(n, ast.Assign) and norm(n.targets[0]) == "self.pref"]
     ok = False
